@@ -433,12 +433,61 @@ def gen_flatten_out(rng):
     return spec, meta
 
 
+def gen_occ_multi(rng):
+    """Three or four operands that all hold one rank, which gets 2-3 occupancy levels with a leader chosen per
+    level (followers of one level are split at that level's leader's boundaries; with three holders a wrong
+    leader separates elements that must meet)."""
+    r = rng.choice(RANKS)
+    others = [x for x in RANKS if x != r]
+    rng.shuffle(others)
+    nops = rng.choice([3, 3, 4])
+    decl = {}
+    facs = []
+    pool = others[:2]
+    for i in range(nops):
+        extra = _subset(rng, pool, 0.5)
+        rs = _perm(rng, [r] + extra)
+        t = INPUTS[i]
+        decl[t] = rs
+        facs.append(t + _access(rs))
+    used = []
+    for rs in decl.values():
+        for x in rs:
+            if x not in used:
+                used.append(x)
+    out_ranks = _perm(rng, _subset(rng, used, 0.6))
+    items = list(decl.items())
+    items.insert(rng.randrange(len(items) + 1), ("Z", out_ranks))
+    spec = {"decl": dict(items), "exprs": ["Z" + _access(out_ranks) + " = " + " * ".join(facs)], "rank_order": None,
+            "partitioning": None, "loop_order": None, "spacetime": None, "arch": None, "bindings": None, "format": None}
+    extents = gen_extents(rng, spec)
+    extents[r] = rng.randint(4, 9)
+    holders = list(decl)
+    dirs = []
+    if rng.random() < 0.25:
+        dirs.append("uniform_shape(%d)" % rng.choice([3, 4, 5]))
+    for j in range(rng.choice([2, 2, 3])):
+        dirs.append("uniform_occupancy(%s.%d)" % (rng.choice(holders), rng.choice([1, 2, 3, 4])))
+    part = {r: dirs}
+    spec["partitioning"] = {"Z": part}
+    ranks = default_loop_order(spec, "Z")
+    groups = [levels_of(x, len(dirs)) if x == r else [x] for x in ranks]
+    if rng.random() < 0.85:
+        spec["loop_order"] = {"Z": loop_order_over(rng, groups, "ordered")}
+    meta = {"ranks": ranks, "out_only": [], "kind": "times", "nterms": 1, "scalars": [], "part": part, "syms": {},
+            "lo_mode": "ordered" if spec["loop_order"] else "default", "extents": extents, "omode": "occ_multi",
+            "flat": None, "nlevels": len(dirs), "npart": 1}
+    return spec, meta
+
+
 def gen_occ(rng):
     x = rng.random()
     if x < 0.12:
         return gen_flatten2(rng)
     if x < 0.27:
         return gen_flatten_out(rng)
+    if x < 0.37:
+        return gen_occ_multi(rng)
     spec, meta = gen_plain(rng, max_ranks=4, allow_take=False, allow_out_only=False, product_only=True,
                            min_ranks=2)
     ranks = meta["ranks"]
